@@ -16,6 +16,7 @@ import (
 	"hash"
 	"os"
 	"sync"
+	"sync/atomic"
 	"testing"
 	"testing/synctest"
 	"time"
@@ -25,6 +26,7 @@ import (
 	"github.com/pion/dtls/v3/pkg/protocol"
 	"github.com/pion/dtls/v3/pkg/protocol/handshake"
 	"github.com/pion/dtls/v3/pkg/protocol/recordlayer"
+	"github.com/pion/transport/v4/replaydetector"
 )
 
 // ---------------------------------------------------------------- opened records
@@ -80,7 +82,16 @@ func c20Open(sender *Conn, raw []byte) (c20Rec, bool) {
 		if err != nil {
 			continue
 		}
-		seq := uint64(clear.SequenceNumber) // fewer than 2^16 records per epoch in these runs
+		// the sender's own counter disambiguates the 16 bits on the wire: the newest number
+		// already allocated for this epoch with these low bits (records are opened right after
+		// emission, far fewer than 2^16 records later)
+		seq := uint64(clear.SequenceNumber)
+		if ls := dtlsstate.CommonState(sender.state).LocalSequenceNumber; e < len(ls) {
+			if cnt := atomic.LoadUint64(&ls[e]); cnt > 0 {
+				last := cnt - 1
+				seq = last - ((last - seq) & 0xffff)
+			}
+		}
 		inner, err := gen.Protection.Open(rec.Header, seq, rec.EncryptedRecord)
 		if err != nil {
 			continue
@@ -293,11 +304,12 @@ type c20Step struct {
 }
 
 type c20Cfg struct {
-	W     int      `json:"w"`
-	Base  [2]int   `json:"base"`
-	WSeq  [2]int   `json:"wseq"`
-	Pre   [2][]int `json:"pre"`
-	Suite string   `json:"suite"`
+	W      int       `json:"w"`
+	Base   [2]int    `json:"base"`
+	WSeq   [2]int    `json:"wseq"`
+	Pre    [2][]int  `json:"pre"`
+	Suite  string    `json:"suite"`
+	Preset [2]uint64 `json:"preset"` // epoch-3 records each side is made to have sent before the script starts (0: untouched)
 }
 
 type c20Trace struct {
@@ -356,17 +368,46 @@ func c20Configs(suite CipherSuiteID, w int) (*dtlsConfig, *dtlsConfig) {
 func c20PayloadNum(b []byte) int {
 	n := -1
 	if len(b) >= 5 && b[0] == 'p' {
-		fmt.Sscanf(string(b[1:5]), "%d", &n)
+		fmt.Sscanf(string(b[1:]), "%d", &n)
 	}
 
 	return n
 }
 
+const c20BulkBase = 1000000
+
 func c20Payload(n int) []byte { return []byte(fmt.Sprintf("p%04d-payload", n)) }
 
 // c20Start establishes a DTLS 1.3 connection over a perfect network, lets the server's
 // NewSessionTicket flight finish, and hands the network over to the script.
-func c20Start(t *testing.T, variant string, suite CipherSuiteID, w int) *c20Sim {
+// c20PresetEpoch3 makes `from` look as if it had already sent n epoch-3 records that `to` received in
+// order: the sender's LocalSequenceNumber[3] = n, the receiver's high-water mark and a fresh replay
+// window with n-1 as the only (newest) accepted number. A long-lived epoch without 2^16 real writes.
+func c20PresetEpoch3(from, to *Conn, n uint64) {
+	fs, ts := dtlsstate.CommonState(from.state), dtlsstate.CommonState(to.state)
+	for len(fs.LocalSequenceNumber) <= 3 {
+		fs.LocalSequenceNumber = append(fs.LocalSequenceNumber, 0)
+	}
+	atomic.StoreUint64(&fs.LocalSequenceNumber[3], n)
+	for len(ts.RemoteSequenceNumber) <= 3 {
+		ts.RemoteSequenceNumber = append(ts.RemoteSequenceNumber, 0)
+	}
+	atomic.StoreUint64(&ts.RemoteSequenceNumber[3], n-1)
+	for len(ts.ReplayDetector) <= 3 {
+		ts.ReplayDetector = append(ts.ReplayDetector, replaydetector.New(to.replayProtectionWindow, ^uint64(0)))
+	}
+	det := replaydetector.New(to.replayProtectionWindow, ^uint64(0))
+	if accept, ok := det.Check(n - 1); ok {
+		accept()
+	}
+	ts.ReplayDetector[3] = det
+}
+
+var c20LongEpochs = []uint64{ //nolint:gochecknoglobals
+	65536, 65536 + 300, 1 << 17, 1 << 24, 65530, 65536 + 32768, 1<<32 + 7, 3 * 65536,
+}
+
+func c20Start(t *testing.T, variant string, suite CipherSuiteID, w int, preset [2]uint64) *c20Sim {
 	t.Helper()
 	ccfg, scfg := c20Configs(suite, w)
 	lab := newLab(t, ccfg, scfg)
@@ -404,6 +445,15 @@ func c20Start(t *testing.T, variant string, suite CipherSuiteID, w int) *c20Sim 
 		i := c20SideIdx(d.From)
 		sim.tr.Cfg.WSeq[i]++
 		sim.tr.Cfg.Pre[1-i] = append(sim.tr.Cfg.Pre[1-i], int(r.Seq))
+	}
+	for i, name := range c20Sides {
+		if preset[i] == 0 {
+			continue
+		}
+		c20PresetEpoch3(lab.peer(name).Conn, lab.other(name).Conn, preset[i])
+		sim.tr.Cfg.Preset[i] = preset[i]
+		sim.tr.Cfg.WSeq[i] = int(preset[i])
+		sim.tr.Cfg.Pre[1-i] = []int{int(preset[i] - 1)}
 	}
 	lab.Client.startReader()
 	lab.Server.startReader()
@@ -795,6 +845,79 @@ func (g *c20Gen) scenarioEarly() {
 	g.settle()
 }
 
+// scenarioLongEpoch: the epoch being replaced has carried 2^16 or more records (preset). The
+// KeyUpdate reaches the peer, its ACK is lost k times (so the KeyUpdate is retransmitted under the
+// OLD epoch to a peer that already moved on), payloads are written while the ACK is outstanding
+// (old epoch) and after the commit (new epoch), and old-epoch records arrive after new-epoch ones.
+func (g *c20Gen) scenarioLongEpoch() {
+	s, rng := g.sim, g.rng
+	rounds := 2 + rng.intn(3)
+	for k := 0; k < rounds; k++ {
+		side := c20Sides[k%2]
+		if rng.chance(30) {
+			side = c20Sides[rng.intn(2)]
+		}
+		peer := s.lab.other(side).Name
+		var late []int
+		for j := rng.intn(3); j > 0; j-- {
+			if r := g.writeHeld(side); r >= 0 {
+				late = append(late, r)
+			}
+		}
+		g.flush()
+		s.opUpdate(side, rng.chance(30))
+		g.sync()
+		// the KeyUpdate reaches the peer, every ACK of it is lost for a while
+		drops := rng.intn(4)
+		for d := 0; ; d++ {
+			var acks []int
+			for len(g.inflight) > 0 {
+				r := g.take(0)
+				rec := s.tr.Recs[r]
+				switch {
+				case rec.From == peer && rec.Kind == "ack" && d < drops:
+					acks = append(acks, r)
+				case rec.From == side && rec.Kind == "app" && rng.chance(60):
+					late = append(late, r)
+				default:
+					s.opDeliver(r)
+					g.old = append(g.old, r)
+				}
+				g.sync()
+			}
+			g.old = append(g.old, acks...)
+			if d >= drops {
+				break
+			}
+			// written while the ACK is outstanding: still the old epoch
+			for j := rng.intn(3); j > 0; j-- {
+				g.nextPay++
+				s.opWrite(side, g.nextPay)
+			}
+			if rng.chance(40) {
+				g.nextPay++
+				s.opWrite(peer, g.nextPay)
+			}
+			s.opTime(time.Duration(1<<uint(d)) * time.Second) // retransmission under the old epoch
+			g.sync()
+		}
+		// committed: new-epoch records first, then the old-epoch ones that were kept back
+		for j := 1 + rng.intn(3); j > 0; j-- {
+			g.nextPay++
+			s.opWrite(side, g.nextPay)
+		}
+		g.flush()
+		for _, r := range late {
+			s.opDeliver(r)
+			g.old = append(g.old, r)
+		}
+		if rng.chance(30) && len(g.old) > 0 {
+			s.opDeliver(g.old[rng.intn(len(g.old))])
+		}
+	}
+	g.settle()
+}
+
 // TestVerifC20Trace: datagram-level deterministic runs (one operation at a time, synctest.Wait in
 // between); every step's observable output is compared with the model by checks/c20.py.
 func TestVerifC20Trace(t *testing.T) {
@@ -808,8 +931,14 @@ func TestVerifC20Trace(t *testing.T) {
 		vBubble(t, func(t *testing.T) {
 			rng := newVRand(vSeed()*1000003 + uint64(i))
 			suite, sname := c20Suite(i)
-			variant := []string{"random", "random", "retained", "early"}[i%4]
-			sim := c20Start(t, variant, suite, 0)
+			variant := []string{"random", "longepoch", "retained", "early", "random", "longepoch"}[i%6]
+			var preset [2]uint64
+			for k := range preset {
+				if variant == "longepoch" || rng.chance(40) {
+					preset[k] = c20LongEpochs[rng.intn(len(c20LongEpochs))]
+				}
+			}
+			sim := c20Start(t, variant, suite, 0, preset)
 			sim.tr.Case = i
 			sim.tr.Cfg.Suite = sname
 			g := &c20Gen{sim: sim, rng: rng}
@@ -818,6 +947,8 @@ func TestVerifC20Trace(t *testing.T) {
 				g.scenarioRetained()
 			case "early":
 				g.scenarioEarly()
+			case "longepoch":
+				g.scenarioLongEpoch()
 			default:
 				steps := 25 + rng.intn(60)
 				loss := []int{0, 15, 35, 60}[rng.intn(4)]
@@ -872,6 +1003,9 @@ type c20Conc struct {
 	Agree      [2]bool           `json:"agree"`
 	Missing    [2][2]int         `json:"missing"`
 	Unopened   int               `json:"unopened"`
+	Preset     [2]uint64         `json:"preset"`
+	Bulk       int               `json:"bulk"`      // records really written (client -> server, perfect network) before the run proper
+	BulkRead   int               `json:"bulk_read"` // of which the server's Read returned
 }
 
 // TestVerifC20Conc: UpdateKeys on both sides racing with 1-3 writer goroutines per side under a
@@ -888,12 +1022,41 @@ func TestVerifC20Conc(t *testing.T) {
 		vBubble(t, func(t *testing.T) {
 			rng := newVRand(vSeed()*7919 + uint64(i) + 17)
 			suite, _ := c20Suite(i)
-			sim := c20Start(t, "conc", suite, 0)
+			var preset [2]uint64
+			for k := range preset {
+				if rng.chance(50) {
+					preset[k] = c20LongEpochs[rng.intn(len(c20LongEpochs))]
+				}
+			}
+			bulk := 0
+			if i%16 == 7 && (!vIsThorough() || i%64 == 7) {
+				// a really long epoch: 2^16 and some records written and read before anything else
+				preset = [2]uint64{}
+				bulk = 65536 + 100 + rng.intn(200)
+			}
+			sim := c20Start(t, "conc", suite, 0, preset)
 			lab := sim.lab
 			res := &c20Conc{
 				Kind: "conc", Case: i, Writers: 1 + rng.intn(3), Loss: []int{0, 10, 30, 50}[rng.intn(4)],
 				Recs: []c20Rec{}, Delivered: []c20ConcDelivery{}, Written: [][2]int{}, WriteErrs: []string{},
 				Reads: [][2]int{}, Calls: []c20ConcCall{},
+			}
+			res.Preset = preset
+			if bulk > 0 {
+				res.Bulk = bulk
+				next := lab.Net.count()
+				for k := 0; k < bulk; k++ {
+					if _, err := lab.Client.Conn.Write(c20Payload(c20BulkBase + k)); err != nil {
+						t.Fatalf("bulk write %d: %v", k, err)
+					}
+					if k%1024 == 1023 || k == bulk-1 {
+						for _, d := range lab.Net.since(next) {
+							next = d.Idx + 1
+							lab.Net.deliver(d.To, d.From, d.Data)
+						}
+						synctest.Wait()
+					}
+				}
 			}
 			start := time.Now()
 			var mu sync.Mutex
@@ -996,7 +1159,11 @@ func TestVerifC20Conc(t *testing.T) {
 			mu.Unlock()
 			for si, name := range c20Sides {
 				for _, b := range lab.peer(name).reads() {
-					res.Reads = append(res.Reads, [2]int{si, c20PayloadNum(b)})
+					if n := c20PayloadNum(b); n >= c20BulkBase {
+						res.BulkRead++
+					} else {
+						res.Reads = append(res.Reads, [2]int{si, n})
+					}
 				}
 			}
 			res.Epochs = sim.epochs()
@@ -1041,7 +1208,7 @@ func TestVerifC20Replay(t *testing.T) {
 				suite = id
 			}
 		}
-		sim := c20Start(t, in.Variant, suite, 0)
+		sim := c20Start(t, in.Variant, suite, 0, in.Cfg.Preset)
 		sim.tr.Case = in.Case
 		sim.tr.Cfg.Suite = in.Cfg.Suite
 		sim.tr.Note = "replay"
